@@ -3,7 +3,7 @@ import json, re
 from pcv import core, capio, textgen
 
 P = "PcVerif.Props.C04."
-THEOREMS = [P + t for t in ["indent_pattern_pinned", "leaf_single_line", "splitWs_no_space", "vtt_line_roundtrip"]]
+THEOREMS = [P + t for t in ["indent_pattern_pinned", "leaf_single_line", "splitWs_no_space", "vtt_line_roundtrip", "leaf_indented", "paragraph_lines_read", "paragraph_lines_spellings"]]
 
 WORDS = ["hello", "world", "Q&A", "a<b", "1>0", "&lt;", "&amp;", "&amp;lt;", "&#38;", "x", "it's", '"quoted"', "é", "中文", "\U0001F600", "100%", "a;b", "fox",
          "<x>", "-->", "--", "]]>", "&", "<", ">", "two", "I", "{1}", "&copy;", "&nbsp;", "#", "=",
